@@ -273,6 +273,9 @@ func cmdCheck(args []string) int {
 			if hs.NoMerge {
 				cfg.mergeOn = false
 			}
+			if hs.Witnesses > 0 {
+				cfg.witnesses = hs.Witnesses
+			}
 			if pass != "" {
 				cfg.stopOnEvent = true
 				cfg.witnesses = 0
